@@ -577,10 +577,35 @@ pub fn exec_from(t: &[&str]) -> String {
         Prim::F32(f) => Value::from(f),
         Prim::F64(f) => Value::from(f),
         Prim::B(b) => Value::from(b),
-        Prim::S(s) => Value::from(s.as_str()),
+        Prim::S(s) => {
+            // every owned / borrowed flavour of a string converts to the same value, as do the constructors
+            let v = Value::from(s.as_str());
+            let flavours = [Value::from(s.clone()), Value::from(s.clone().into_boxed_str()), Value::from(std::borrow::Cow::Borrowed(s.as_str())),
+                            Value::from(std::borrow::Cow::<str>::Owned(s.clone())), Value::string(s.as_str()), Value::string(s.clone())];
+            if flavours.iter().any(|f| enc_value(f) != enc_value(&v)) { return "flavours-differ".into(); }
+            // the same payload as a symbol and a keyword, and pairs / vectors built from it
+            let (sy, kw) = (Value::symbol(s.as_str()), Value::keyword(s.clone()));
+            if sy.as_symbol() != Some(s.as_str()) || kw.as_keyword() != Some(s.as_str()) || sy.as_name() != Some(s.as_str()) || sy.as_str().is_some() { return "name-constructors-differ".into(); }
+            let pair = Value::from((s.as_str(), 7u8));
+            let pair_ok = match pair.as_pair() { Some((a, d)) => a.as_str() == Some(s.as_str()) && d.as_u64() == Some(7), None => false }
+                && enc_value(&Value::from(lexpr::Cons::new(s.as_str(), 7u8))) == enc_value(&pair) && enc_value(&Value::cons(s.as_str(), 7u8)) == enc_value(&pair);
+            let items = vec![v.clone(), sy.clone(), Value::Null];
+            let (vec1, vec2, vec3) = (Value::from(items.clone()), Value::from(items.clone().into_boxed_slice()), Value::vector(items.clone()));
+            let vec_ok = vec1.as_slice().map(|x| x.iter().map(enc_value).collect::<Vec<_>>()) == Some(items.iter().map(enc_value).collect::<Vec<_>>())
+                && enc_value(&vec2) == enc_value(&vec1) && enc_value(&vec3) == enc_value(&vec1);
+            if !pair_ok || !vec_ok { return "pair-or-vector-conversion-differs".into(); }
+            v
+        }
         Prim::C(c) => Value::from(c),
-        Prim::Y(b) => Value::from(&b[..]),
+        Prim::Y(b) => {
+            let v = Value::from(&b[..]);
+            let flavours = [Value::from(b.clone()), Value::from(b.clone().into_boxed_slice()), Value::bytes(b.clone()), Value::bytes(&b[..])];
+            if flavours.iter().any(|f| enc_value(f) != enc_value(&v)) { return "flavours-differ".into(); }
+            v
+        }
     };
+    // From<Number> keeps the number
+    if let Some(n) = v.as_number() { if enc_value(&Value::from(n.clone())) != enc_value(&v) { return "number-conversion-differs".into(); } }
     enc_value(&v)
 }
 
